@@ -147,7 +147,8 @@ func (e StdEng) Reduce(fn interface{}, a Tensor, axis int, defaultValue interfac
 		}
 		// everything before the axis forms the outer loop; one outer block is the axis times everything after it
 		dimSize := a.Shape()[axis]
-		stride := a.Strides()[axis]
+		// (the operand is one contiguous row-major block here; the stride recorded for an axis of extent 1 need not be this)
+		stride := ProdInts(a.Shape()[axis+1:])
 		dim0 := ProdInts(a.Shape()[:axis])
 		outerStride := dimSize * stride
 		expected := stride
@@ -196,7 +197,8 @@ func (e StdEng) OptimizedReduce(a Tensor, axis int, firstFn, lastFn, defaultFn, 
 		}
 		// everything before the axis forms the outer loop; one outer block is the axis times everything after it
 		dimSize := a.Shape()[axis]
-		stride := a.Strides()[axis]
+		// (the operand is one contiguous row-major block here; the stride recorded for an axis of extent 1 need not be this)
+		stride := ProdInts(a.Shape()[axis+1:])
 		dim0 := ProdInts(a.Shape()[:axis])
 		outerStride := dimSize * stride
 		expected := stride
